@@ -181,10 +181,17 @@ class Ctx:
     def lake_build(self, targets):
         with Lock("lake"):
             r = sh(["lake", "build"] + list(targets), cwd=LEAN)
+            # private copy of the model driver: a concurrent build of another check may relink the shared binary
+            src = LEAN / ".lake" / "build" / "bin" / "pmodel"
+            if r.returncode == 0 and "pmodel" in targets and src.exists():
+                dst = BUILD / f"pmodel-{self.prop}-{os.getpid()}"
+                shutil.copy2(src, dst)
+                self._pmodel = dst
         return r.returncode == 0, r.stdout + r.stderr
 
     def pmodel_path(self):
-        return LEAN / ".lake" / "build" / "bin" / "pmodel"
+        p = getattr(self, "_pmodel", None)
+        return p if p is not None and p.exists() else LEAN / ".lake" / "build" / "bin" / "pmodel"
 
     def prove(self, modules, extra_targets=("pmodel",)):
         """Re-check the proof obligations in `modules` (Lean module names under PhreeqcVerif.Properties).
@@ -321,6 +328,9 @@ class Ctx:
         (EVID / f"{self.prop}.json").write_text(json.dumps(ev, indent=1, default=str))
 
     def finish(self):
+        p = getattr(self, "_pmodel", None)
+        if p is not None and p.exists():
+            p.unlink()
         self.write_evidence()
         if self.violations:
             return 1
